@@ -9,7 +9,9 @@ import (
 	"os"
 	"strings"
 
+	"github.com/formancehq/numscript/internal/analysis"
 	"github.com/formancehq/numscript/internal/lsp"
+	"github.com/formancehq/numscript/internal/parser"
 	"github.com/formancehq/numscript/internal/verifsim/core"
 	"github.com/formancehq/numscript/internal/verifsim/gen"
 	"github.com/sourcegraph/jsonrpc2"
@@ -191,6 +193,39 @@ func fresh(uri string, text *string, m *Msg) (open reply, ans reply) {
 		ans = s.handle(mkReq(*m, 2))
 	}
 	return open, ans
+}
+
+// libraryDiags / librarySymbols: what the analysis *library* says about a text, rendered
+// the way the protocol carries it. "A fresh analysis of the document's latest text" is the
+// reference the property names; a fresh *server* shares the conversion code of the
+// long-lived one, so a wrong conversion would be invisible to a server-vs-server comparison.
+func lspRange(r parser.Range) map[string]any {
+	pos := func(p parser.Position) map[string]any {
+		return map[string]any{"line": float64(p.Line), "character": float64(p.Character)}
+	}
+	return map[string]any{"start": pos(r.Start), "end": pos(r.End)}
+}
+
+func libraryAnalysis(text string) (diags string, symbols string, ok bool) {
+	defer func() {
+		if recover() != nil {
+			ok = false
+		}
+	}()
+	res := analysis.CheckSource(text)
+	var ds []any
+	for _, d := range res.Diagnostics {
+		ds = append(ds, map[string]any{"range": lspRange(d.Range), "severity": float64(d.Kind.Severity()), "message": d.Kind.Message()})
+	}
+	var ss []any
+	for _, sym := range res.GetSymbols() {
+		m := map[string]any{"name": sym.Name, "kind": float64(sym.Kind), "range": lspRange(sym.Range), "selectionRange": lspRange(sym.SelectionRange)}
+		if sym.Detail != "" {
+			m["detail"] = sym.Detail
+		}
+		ss = append(ss, m)
+	}
+	return "[" + strings.Join(sortedList(ds), ",") + "]", "symbols:" + strings.Join(sortedList(ss), ","), true
 }
 
 // freshDiags is what a fresh server publishes for (uri, text), as a canonical multiset.
@@ -398,6 +433,12 @@ func checkReply(m Msg, rep reply, latest map[string]string, shown map[string]str
 		if got := shownOr(shown, m.URI); got != want {
 			return viol("freshness", "diagnostics-not-refreshed", fmt.Sprintf("after %s on %s the client shows %s ; a fresh analysis of the latest text gives %s", m.Kind, m.URI, core.Truncate(got, 400), core.Truncate(want, 400)))
 		}
+		if ld, _, ok := libraryAnalysis(text); ok {
+			res.Probes["diagnostics_checked_against_the_library"]++
+			if got := shownOr(shown, m.URI); got != ld {
+				return viol("freshness", "diagnostics-differ-from-library-analysis", fmt.Sprintf("after %s on %s the client shows %s ; analysis.CheckSource of the same text gives %s", m.Kind, m.URI, core.Truncate(got, 500), core.Truncate(ld, 500)))
+			}
+		}
 		return nil
 	case "hover", "definition", "symbols":
 		var textp *string
@@ -429,6 +470,14 @@ func checkReply(m Msg, rep reply, latest map[string]string, shown map[string]str
 		}
 		if got != want {
 			return viol("freshness", "stale-or-foreign-answer", fmt.Sprintf("%s at (%d,%d) on %s returned %s ; a fresh server holding only the latest text returns %s", m.Kind, m.Line, m.Char, m.URI, core.Truncate(got, 500), core.Truncate(want, 500)))
+		}
+		if m.Kind == "symbols" && textp != nil {
+			if _, ls, ok := libraryAnalysis(*textp); ok {
+				res.Probes["symbols_checked_against_the_library"]++
+				if got != ls {
+					return viol("freshness", "symbols-differ-from-library-analysis", fmt.Sprintf("documentSymbol on %s returned %s ; the analysis of its latest text declares %s", m.URI, core.Truncate(got, 500), core.Truncate(ls, 500)))
+				}
+			}
 		}
 		if updates[m.URI] > 1 {
 			res.Probes["query_after_several_updates"]++
